@@ -55,8 +55,8 @@ Definition abs_raw (o : obj) : option msg :=
       | ReadFifoQueueRequest => match assoc_str "address" a with Some v => Some (MReadFifoReq v) | None => None end
       | ReadDeviceInformationRequest =>
           match assoc_str "sub_function_code" a with
-          | Some 14 => at2 a "read_code" "object_id" MReadDevIdReq
-          | _ => None
+          | Some s => if s =? 14 then at2 a "read_code" "object_id" MReadDevIdReq else None
+          | None => None
           end
       | _ => None
       end
@@ -82,12 +82,19 @@ Definition abs_raw (o : obj) : option msg :=
   | ORWReq ra rc wa regs wc wbc =>
       if (wc =? zlen regs) && (wbc =? 2 * zlen regs) then Some (MReadWriteRegsReq ra rc wa regs) else None
   | ODiag c sub m =>
-      (* GetClearModbusPlusRequest: the data field is one operation word (an int) by construction *)
-      if cls_eqb c GetClearModbusPlusRequest && negb (match m with DInt _ => true | _ => false end) then None else
-      match fc_of c, dmsg_words m with
-      | Some 8, Some ws => Some (if is_request c then MDiagReq sub ws else MDiagRsp sub ws)
-      | _, _ => None
-      end
+      (* the data field as 16-bit words.  Outside the domain: raw bytes payloads; a tuple on a request
+         (tuples only arise from decoding responses); GetClearModbusPlusRequest's data is one operation
+         word (an int) by construction *)
+      let mk ws := Some (if is_request c then MDiagReq sub ws else MDiagRsp sub ws) in
+      if option_eqb Z.eqb (fc_of c) (Some 8) then
+        match m with
+        | DInt v => mk [v]
+        | DList l => if cls_eqb c GetClearModbusPlusRequest then None else mk l
+        | DNone => if cls_eqb c GetClearModbusPlusRequest then None else mk []
+        | DTuple l => if is_request c then None else mk l
+        | DBytes _ => None
+        end
+      else None
   | OExcStatusRsp s => Some (MReadExcStatusRsp s)
   | OEvCounterRsp st c => Some (MCommEventCounterRsp (negb st) c)
   | OEvLogRsp st mc ec evs => Some (MCommEventLogRsp (negb st) ec mc evs)
@@ -99,11 +106,11 @@ Definition abs_raw (o : obj) : option msg :=
           then Some (MReadFileReq (map (fun r => {| sr_file := fr_file r; sr_record := fr_recno r; sr_length := fr_len r |}) rs))
           else None
       | ReadFileRecordResponse =>
-          if forallb (fun r => (fr_ref r =? 6) && (fr_len r =? zlen (fr_data r) / 2) && (fr_rlen r =? zlen (fr_data r) + 1)) rs
+          if forallb (fun r => (fr_ref r =? 6) && (fr_len r =? zlen (fr_data r) / 2) && (fr_rlen r =? zlen (fr_data r) + 1) && wfb (fr_data r)) rs
           then match opt_map (fun r => words_of_bytes (fr_data r)) rs with Some ds => Some (MReadFileRsp ds) | None => None end
           else None
       | WriteFileRecordRequest | WriteFileRecordResponse =>
-          if forallb (fun r => (fr_ref r =? 6) && (fr_len r * 2 =? zlen (fr_data r))) rs
+          if forallb (fun r => (fr_ref r =? 6) && (fr_len r * 2 =? zlen (fr_data r)) && wfb (fr_data r)) rs
           then match opt_map (fun r => match words_of_bytes (fr_data r) with
                                        | Some ws => Some {| sw_file := fr_file r; sw_record := fr_recno r; sw_data := ws |}
                                        | None => None end) rs with
@@ -331,3 +338,63 @@ Fixpoint prop_hist (prev : option bytes) (outs : list hout) : bool :=
 Definition chk_hist (c : obj * list hop * list hout) : bool * bool :=
   let '(o, ops, outs) := c in
   (list_eqb hout_eqb (run_hist o ops) outs, prop_hist None outs).
+
+(* ---- explicit class lists used in the theorem statements of Props/C01.v and Props/C02.v ----
+   (hand-written, not generated: a regression in a listed class breaks the theorem instead of
+   silently shrinking a predicate) *)
+
+Definition mem_cls (c : cls) (l : list cls) : bool := existsb (cls_eqb c) l.
+
+Definition diag_request_classes : list cls :=
+  [DiagnosticStatusRequest; ReturnQueryDataRequest; RestartCommunicationsOptionRequest; ReturnDiagnosticRegisterRequest;
+   ChangeAsciiInputDelimiterRequest; ForceListenOnlyModeRequest; ClearCountersRequest; ReturnBusMessageCountRequest;
+   ReturnBusCommunicationErrorCountRequest; ReturnBusExceptionErrorCountRequest; ReturnSlaveMessageCountRequest;
+   ReturnSlaveNoResponseCountRequest; ReturnSlaveNAKCountRequest; ReturnSlaveBusyCountRequest;
+   ReturnSlaveBusCharacterOverrunCountRequest; ReturnIopOverrunCountRequest; ClearOverrunCountRequest;
+   GetClearModbusPlusRequest].
+Definition diag_response_classes : list cls :=
+  [DiagnosticStatusResponse; ReturnQueryDataResponse; RestartCommunicationsOptionResponse; ReturnDiagnosticRegisterResponse;
+   ChangeAsciiInputDelimiterResponse; ForceListenOnlyModeResponse; ClearCountersResponse; ReturnBusMessageCountResponse;
+   ReturnBusCommunicationErrorCountResponse; ReturnBusExceptionErrorCountResponse; ReturnSlaveMessageCountResponse;
+   ReturnSlaveNoReponseCountResponse; ReturnSlaveNAKCountResponse; ReturnSlaveBusyCountResponse;
+   ReturnSlaveBusCharacterOverrunCountResponse; ReturnIopOverrunCountResponse; ClearOverrunCountResponse;
+   GetClearModbusPlusResponse].
+
+(* classes whose bytes([fc]) + encode() is the specification's PDU for every in-range field value *)
+Definition conforming_encode : list cls :=
+  [ReadCoilsRequest; ReadDiscreteInputsRequest; ReadHoldingRegistersRequest; ReadInputRegistersRequest;
+   WriteSingleCoilRequest; WriteSingleRegisterRequest; WriteMultipleCoilsRequest; WriteMultipleRegistersRequest;
+   ReadWriteMultipleRegistersRequest; MaskWriteRegisterRequest;
+   ReadExceptionStatusRequest; GetCommEventCounterRequest; GetCommEventLogRequest; ReportSlaveIdRequest;
+   ReadFileRecordRequest; WriteFileRecordRequest; ReadFifoQueueRequest; ReadDeviceInformationRequest;
+   ReadCoilsResponse; ReadDiscreteInputsResponse; ReadHoldingRegistersResponse; ReadInputRegistersResponse;
+   WriteSingleCoilResponse; WriteSingleRegisterResponse; WriteMultipleCoilsResponse; WriteMultipleRegistersResponse;
+   ReadWriteMultipleRegistersResponse; MaskWriteRegisterResponse;
+   ReadExceptionStatusResponse; GetCommEventCounterResponse; GetCommEventLogResponse; ReportSlaveIdResponse;
+   WriteFileRecordResponse; ReadDeviceInformationResponse; ExceptionResponse]
+  ++ diag_request_classes ++ diag_response_classes.
+(* NOT in the list: ReadFifoQueueResponse, ReadFileRecordResponse (refuted, see Props/C01.v);
+   IllegalFunctionRequest has no PDU of its own *)
+
+(* direction of a spec message: requests go through the server decoder, responses and exception
+   responses through the client decoder *)
+Definition msg_is_request (m : msg) : bool :=
+  match m with
+  | MReadCoilsReq _ _ | MReadDiscreteReq _ _ | MReadHoldingReq _ _ | MReadInputReq _ _ | MWriteCoilReq _ _
+  | MWriteRegReq _ _ | MReadExcStatusReq | MDiagReq _ _ | MCommEventCounterReq | MCommEventLogReq
+  | MWriteCoilsReq _ _ | MWriteRegsReq _ _ | MReportSlaveIdReq | MReadFileReq _ | MWriteFileReq _
+  | MMaskWriteReq _ _ _ | MReadWriteRegsReq _ _ _ _ | MReadFifoReq _ | MReadDevIdReq _ _ => true
+  | _ => false
+  end.
+
+(* message kinds whose spec-conformant PDUs the decoders are PROVED to decode to the wire's fields.
+   false = refuted (FIFO response, slave-id response, diagnostic requests with other than one data
+   word: see the _refuted theorems) or covered by the correspondence suite only (file records,
+   device-identification response) *)
+Definition conforming_decode (m : msg) : bool :=
+  match m with
+  | MReadFifoRsp _ | MReportSlaveIdRsp _ _ => false
+  | MDiagReq _ d => Nat.eqb (length d) 1
+  | MReadFileReq _ | MWriteFileReq _ | MWriteFileRsp _ | MReadFileRsp _ | MReadDevIdRsp _ _ _ _ _ => false
+  | _ => true
+  end.
